@@ -294,3 +294,57 @@ H("C14", "cfo", "c14_half_tuples_binread", unwind=8, timeout=300, bounds="all 6-
   encodes=["common_file_operations::Half1/Half2/Half3 as BinRead (br(map))"])
 H("C14", "cfo", "c14_bool_helpers", bounds="all u8 / u16 / bool", encodes=["common_file_operations::read_bool_from", "write_bool_as"])
 H("C14", "cfo", "c14c_pipeline_witness", expect="witness-fail", bounds="assert(false) twin")
+
+# ================================================================================================
+# C01 — archive lookup
+# ================================================================================================
+_LOW = ["str::to_lowercase -> ASCII model (documented behaviour on ASCII input)"]
+H("C01", "sqpack_index", "c01_file_entry_data_bits", unwind=6, bounds="all 2^32 entry words", encodes=["sqpack::index::FileEntryData::read_options"])
+H("C01", "sqpack_index", "c01_file_entry_index1_layout", unwind=6, timeout=300, bounds="all 16-byte Index1 entries", encodes=["sqpack::index::FileEntry (binrw)", "sqpack::index::Hash (binrw)"])
+for n, t in ((1, "quick"), (2, "quick"), (3, "thorough"), (4, "thorough")):
+    H("C01", "sqpack_index", "c01_partial_hash_len%d" % n, tier=t, unwind=10, timeout=1200,
+      bounds="all ASCII strings of length %d (128^%d)" % (n, n), encodes=["sqpack::index::SqPackIndex::calculate_partial_hash", "crc::Jamcrc::checksum"], stubs=_LOW)
+for n, t in (("dir1", "quick"), ("dir2", "thorough"), ("dir3", "thorough")):
+    H("C01", "sqpack_index", "c01_full_hash_" + n, tier=t, unwind=12, timeout=300,
+      bounds="paths <all ASCII directory strings of length %s, '/' allowed>/<concrete mixed-case file name>" % n[3:],
+      encodes=["sqpack::index::SqPackIndex::calculate_hash"], stubs=_LOW + ["core::slice::memchr::memrchr -> naive backward scan"])
+for n in ("index1", "index2"):
+    H("C01", "sqpack_index", "c01_find_entry_" + n, unwind=6, timeout=600, bounds="3 entries with symbolic hashes / dat ids / offsets, symbolic query hash",
+      encodes=["sqpack::index::SqPackIndex::find_entry", "sqpack::index::SqPackIndex::exists"], stubs=["SqPackIndex::calculate_hash -> abstract value"], replay="structural")
+H("C01", "sqpack_index", "c01i_pipeline_witness", expect="witness-fail", bounds="assert(false) twin")
+_RS = ["std::hash::RandomState::new -> fixed keys (needed to construct the HashMap field; the map is not used)"]
+H("C01", "gamedata", "c01_repository_selection_bg", unwind=12, timeout=600, bounds="paths bg/<3 symbolic bytes [a-z][a-z][0-9]>/<1 symbolic letter> over repositories ffxiv, ex1, ex2",
+  encodes=["gamedata::GameData::parse_repository_category", "repository::string_to_category"], stubs=_RS)
+H("C01", "gamedata", "c01_repository_selection_shapes", unwind=20, timeout=300, bounds="6 concrete path shapes (deep path, no repository token, repository token last, unknown category, no directory)",
+  encodes=["gamedata::GameData::parse_repository_category"], stubs=_RS + ["core::slice::memchr::memchr_aligned -> naive forward scan"])
+H("C01", "gamedata", "c01g_pipeline_witness", expect="witness-fail", bounds="assert(false) twin", stubs=_RS)
+
+# ================================================================================================
+# C02 / C03 / C04 — block reader / writer kernels (sqpack/mod.rs, sqpack/data.rs BlockHeader)
+# ================================================================================================
+H("C02", "sqpack_mod", "c02_block_header_decode", unwind=6, timeout=150, bounds="all 2^128 block headers", encodes=["sqpack::data::BlockHeader (binrw)", "sqpack::data::CompressionMode (br(map))"])
+H("C02", "sqpack_mod", "c02_block_header_write_layout", unwind=6, timeout=300, bounds="all sizes / lengths, both modes", encodes=["sqpack::data::BlockHeader (BinWrite)"])
+for n, t in (("len0", "quick"), ("len1_at128", "quick"), ("len33_at7", "quick"), ("len128_at0", "thorough")):
+    H("C02", "sqpack_mod", "c02_raw_block_" + n, tier=t, unwind=140, timeout=600, bounds="raw block, concrete length/position " + n + ", all content bytes", encodes=["sqpack::read_data_block"], cbmc_args=FS256)
+_ORA = ["compression::no_header_decompress -> abstract oracle (records its input, returns nondeterministic output / status)"]
+H("C02", "sqpack_mod", "c02_deflated_block_contract", unwind=40, timeout=600, bounds="deflated block, compressed length 5 / decompressed 9 at offset 3, all stream bytes, every oracle result",
+  encodes=["sqpack::read_data_block"], stubs=_ORA, replay="structural", cbmc_args=FS256)
+H("C02", "sqpack_mod", "c02_deflated_block_contract_b", tier="thorough", unwind=40, timeout=600, bounds="deflated block 12 -> 4 at offset 0", encodes=["sqpack::read_data_block"], stubs=_ORA, replay="structural", cbmc_args=FS256)
+H("C02", "sqpack_mod", "c02_pipeline_witness", expect="witness-fail", bounds="assert(false) twin")
+for n, t in (("len1", "quick"), ("len112", "quick"), ("len113", "quick"), ("len128", "thorough")):
+    H("C03", "sqpack_mod", "c03_patch_raw_block_" + n, tier=t, unwind=140, timeout=600, bounds="patch raw block of " + n[3:] + " bytes, all content", encodes=["sqpack::read_data_block_patch"], cbmc_args=FS1K)
+for n, t in (("len5", "quick"), ("len112", "quick"), ("len113", "thorough")):
+    H("C03", "sqpack_mod", "c03_patch_deflated_block_" + n, tier=t, unwind=260, timeout=600, bounds="patch deflated block, compressed length " + n[3:] + ", abstract inflate oracle",
+      encodes=["sqpack::read_data_block_patch"], stubs=_ORA, replay="structural", cbmc_args=FS1K)
+H("C03", "sqpack_mod", "c02_pipeline_witness", expect="witness-fail", bounds="assert(false) twin")
+for n, t in (("len1", "quick"), ("len111", "thorough"), ("len112", "quick"), ("len113", "quick"), ("len128", "thorough"), ("len240", "thorough")):
+    H("C04", "sqpack_mod", "c04_patch_block_roundtrip_" + n, tier=t, unwind=260, timeout=600, bounds="write_data_block_patch -> read_data_block_patch, " + n[3:] + " content bytes (all values)",
+      encodes=["sqpack::write_data_block_patch", "sqpack::read_data_block_patch"], cbmc_args=FS1K)
+H("C04", "sqpack_mod", "c02_pipeline_witness", expect="witness-fail", bounds="assert(false) twin")
+
+# ================================================================================================
+# C18 — inflate lifecycle
+# ================================================================================================
+_Z = ["libz_rs_sys::inflateInit2_ / inflate / inflateEnd -> nondeterministic status codes + ghost live-stream counter"]
+H("C18", "compression", "c18_inflate_stream_released", unwind=4, bounds="every combination of zlib status codes", encodes=["compression::no_header_decompress"], stubs=_Z, replay="structural")
+H("C18", "compression", "c18c_pipeline_witness", expect="witness-fail", bounds="assert(false) twin", stubs=_Z)
